@@ -63,6 +63,25 @@ func writeOrderFacts(sb *strings.Builder) {
 		fcs = append(fcs, fmt.Sprintf("(%q, %d)", name, a[0]+a[1]))
 	}
 	fmt.Fprintf(sb, "/-- (exported FileCache method, call sites of c.lock.Lock()) -/\ndef fileCacheSections : List (String × Nat) := [%s]\n", strings.Join(fcs, ", "))
+	// Flush as a barrier (C13, C11): every return statement of the three Flush functions is reached with flushLock held - a caller
+	// never returns without having queued behind a flush that is already running - and the collector hands the freelist over, THEN
+	// flushes the primary, THEN applies the freelist
+	var fb []string
+	for _, fl := range [][2]string{{"MultihashPrimary.Flush", "MultihashPrimary.flushLock"}, {"Index.Flush", "Index.flushLock"}, {"FreeList.Flush", "FreeList.flushLock"}} {
+		fi := funcs[fl[0]]
+		n, held := 0, 0
+		if fi != nil {
+			n = len(fi.returnLocks)
+			for _, ls := range fi.returnLocks {
+				if holds(ls, fl[1]) == "w" {
+					held++
+				}
+			}
+		}
+		fb = append(fb, fmt.Sprintf("(%q, %d, %d)", fl[0], n, held))
+	}
+	fmt.Fprintf(sb, "/-- (Flush function, return statements, return statements reached with its flushLock held) -/\ndef flushBarrier : List (String × Nat × Nat) := [%s]\n", strings.Join(fb, ", "))
+	fmt.Fprintf(sb, "def gcHandoverOrder : List String := %s\n", q(order("primaryGC.gc", []string{"FreeList.ToGC", "MultihashPrimary.Flush", "pkg.processFreeList"})))
 	// Store.Flush: number of return statements and number of notice-closing sections (close(s.flushNotice))
 	fmt.Fprintf(sb, "def flushReturns : Nat := %d\n", funcs["Store.Flush"].returns)
 	writes := 0
